@@ -6,7 +6,7 @@ PROP = dict(
     required_theorems=["C32_lookup_compress", "C32_trace_frames", "C32_trace_order", "C32_call_ret_balanced"],
     harness_bin="c32",
     mismatch_is_violation=True,
-    rule="generated ASCII programs over 1-3 files (mutual `use`), 0-5 named functions below <main> placed in random files, "
+    rule="generated programs (with non-ASCII comments and string literals among the filler lines) over 1-3 files (mutual `use`), 0-5 named functions below <main> placed in random files, "
          "optional recursion (1-3 extra frames) and calls through a lambda (CallFuncObj), call sites in 8 statement forms, "
          "failing operation of 13 kinds (int/float division and remainder by zero, + * unary- ^ overflow, array read/write "
          "out of bounds, panic(), ! on option.none / result.err inside the prelude) in 9 statement contexts incl. multi-line "
@@ -21,7 +21,7 @@ PROP = dict(
         "Rust fmt width padding `{:width$}`",
     ],
     assumptions=[
-        "ASCII sources (D12: character offsets are used as byte offsets when computing line numbers; non-ASCII sources are out of the main stream)",
+        "D12 (character offsets used as byte offsets) is repaired in /repo (5388a80); non-ASCII filler lines are part of the main stream",
         "fewer than 2^32 instructions and lines (`as u32` casts in create_source_location_tables are not modelled)",
         "which annotation the code generator and the peephole optimizer attach to an instruction is checked by the correspondence "
         "(expected chain known to the generator), not proved",
